@@ -484,6 +484,9 @@ def gen_cases(group, tier):
                 yield {"fn": "temperature", "max_value": mv, "bound": b}
         vals = (
             [("int", v) for v in (-4, -1, 0, 1, 2, 3, 4, 6, 8, 1024, 1023, 2 ** 40)]
+            # every power of two up to 2**70 with both neighbours and the sum of two powers: Python ints are unbounded, and an
+            # implementation through floating point (log2, float division) goes wrong from 2**47 / 2**53 upwards
+            + [("int", v) for k in range(3, 71) for v in (2 ** k - 1, 2 ** k, 2 ** k + 1, 2 ** k + 2 ** (k // 2), -(2 ** k))]
             + [("float", v) for v in (0.0, 1.0, 2.0, 2.5, -1.0, float("nan"), float("inf"))]
             + [("str", v) for v in ("", "3", "a")]
             + [("none", None), ("list", [1]), ("bool", True), ("bool", False), ("npint", 4), ("npint", -1)]
